@@ -264,11 +264,20 @@ func RunC11Cadence(s *kernel.Sim) *World {
 	iv := []time.Duration{10 * time.Second, time.Minute, time.Hour, 24 * time.Hour, 7 * time.Second, 90 * time.Minute}[t.Choice(6)]
 	cfg := setec.StoreConfig{Client: w.Svc, Secrets: declared, Logf: w.Logf, PollInterval: iv}
 	s.SetFree(true) // no parks: the store runs on its own timers
+	if t.Bool(1, 2) {
+		// a service that takes a noticeable fraction of the interval to answer:
+		// polls still happen once per interval, not once per interval + poll time
+		w.Svc.Default = Outcome{Latency: iv / time.Duration(t.Range(3, 8)*len(declared))} // a whole round takes at most a third of the interval
+		w.Svc.MaxHang = 0
+	}
+	slow := w.Svc.Default
+	w.Svc.Default = Outcome{}
 	st, err := setec.NewStore(context_bg(), cfg)
 	if err != nil {
 		w.Fail("harness", "NewStore: %v", err)
 		return w
 	}
+	w.Svc.Default = slow
 	w.Store = st
 	t0 := s.Now()
 	base := w.Svc.NumReqs()
@@ -280,10 +289,18 @@ func RunC11Cadence(s *kernel.Sim) *World {
 		}
 	}
 	w.Ops = rounds
+	// a round's requests are back to back; a new round begins after an idle gap
 	var starts []time.Duration
+	prevEnd := time.Duration(-1)
 	for _, r := range w.Svc.ReqsSince(0)[base:] {
-		if r.Name == declared[0] && r.Cond {
+		if !r.Cond {
+			continue
+		}
+		if prevEnd < 0 || r.StartT > prevEnd+time.Millisecond {
 			starts = append(starts, r.StartT)
+		}
+		if r.EndT > prevEnd {
+			prevEnd = r.EndT
 		}
 	}
 	w.Tracef("interval %v, %d background polls at %v", iv, len(starts), starts)
